@@ -86,6 +86,7 @@ class Recorder:
         self.samples = []
         self.violations = []  # dicts: site, mechanism-relevant witness fields
         self.viol_counts = collections.Counter()
+        self.known_counts = collections.Counter()
         self.inconclusive = []
         self.notes = {}
 
@@ -103,9 +104,16 @@ class Recorder:
     def violation(self, site, witness, n=1):
         """site: stable name of the monitor; witness: dict with literal inputs, enough to replay."""
         self.viol_counts[site] += int(n)
-        k = sum(1 for v in self.violations if v["site"] == site)
+        w = jsonable(witness)
+        kid = match_known(self.pid, site, w)
+        if kid is not None:
+            # classified at recording time so that listed findings can never crowd out an unlisted violation
+            self.known_counts[kid] += int(n)
+            if sum(1 for v in self.violations if v.get("known") == kid) < 3:
+                self.violations.append({"site": site, "witness": w, "known": kid})
+            return
+        k = sum(1 for v in self.violations if v["site"] == site and "known" not in v)
         if k < MAX_WITNESSES_PER_SITE:
-            w = jsonable(witness)
             self.violations.append({"site": site, "witness": w})
 
     def inconc(self, why):
@@ -123,6 +131,7 @@ class Recorder:
             samples=self.samples,
             violations=self.violations,
             viol_counts=dict(self.viol_counts),
+            known_counts=dict(self.known_counts),
             inconclusive=self.inconclusive,
             notes=self.notes,
         )
@@ -134,10 +143,15 @@ class Recorder:
             if len(self.samples) < 8:
                 self.samples.append(s)
         for v in d["violations"]:
-            k = sum(1 for w in self.violations if w["site"] == v["site"])
+            if "known" in v:
+                if sum(1 for w in self.violations if w.get("known") == v["known"]) < 3:
+                    self.violations.append(v)
+                continue
+            k = sum(1 for w in self.violations if w["site"] == v["site"] and "known" not in w)
             if k < MAX_WITNESSES_PER_SITE:
                 self.violations.append(v)
         self.viol_counts.update(d["viol_counts"])
+        self.known_counts.update(d.get("known_counts", {}))
         for w in d["inconclusive"]:
             self.inconc(w)
         for k, v in d["notes"].items():
@@ -238,35 +252,39 @@ def load_known_findings(pid):
     return [e for e in data.get("findings", []) if e.get("property") == pid]
 
 
-def classify(pid, violations):
-    """Match violations against the committed known-findings predicates (mechanism keyed)."""
+_KF_CACHE = {}
+
+
+def match_known(pid, site, w):
+    """id of the committed known finding whose mechanism predicate matches this witness, else None"""
     from . import kf_predicates
 
-    findings = load_known_findings(pid)
+    if pid not in _KF_CACHE:
+        _KF_CACHE[pid] = load_known_findings(pid)
+    for e in _KF_CACHE[pid]:
+        pred = getattr(kf_predicates, e["predicate"], None)
+        if pred is None:
+            continue
+        try:
+            if pred(site, w):
+                return e["id"]
+        except Exception:
+            continue
+    return None
+
+
+def classify(pid, rec):
+    findings = {e["id"]: e for e in load_known_findings(pid)}
     known_hits = collections.OrderedDict()
-    unknown = []
-    for v in violations:
-        hit = None
-        for e in findings:
-            pred = getattr(kf_predicates, e["predicate"], None)
-            if pred is None:
-                continue
-            try:
-                if pred(v["site"], v["witness"]):
-                    hit = e
-                    break
-            except Exception:
-                continue
-        if hit is None:
-            unknown.append(v)
-        else:
-            known_hits.setdefault(hit["id"], [hit, 0])
-            known_hits[hit["id"]][1] += 1
+    for kid, n in rec.known_counts.items():
+        if kid in findings:
+            known_hits[kid] = [findings[kid], n]
+    unknown = [v for v in rec.violations if "known" not in v]
     return known_hits, unknown
 
 
 def finish(pid, tier, seed, mod, rec, t0, replay_mode=False):
-    known_hits, unknown = classify(pid, rec.violations)
+    known_hits, unknown = classify(pid, rec)
     # REQUIRE: counters that must be positive
     for key in getattr(mod, "REQUIRE", []):
         if rec.counters.get(key, 0) <= 0:
@@ -303,7 +321,7 @@ def finish(pid, tier, seed, mod, rec, t0, replay_mode=False):
         with open(os.path.join(ROOT, "evidence", f"{pid}.json"), "w") as f:
             json.dump(ev, f, indent=1, sort_keys=True)
     for k, (e, n) in known_hits.items():
-        print(f"KNOWN-FINDING: property={pid} {e['id']}: {e['text']} (observed in {n} recorded witnesses this run)")
+        print(f"KNOWN-FINDING: property={pid} {e['id']}: {e['text']} (observed {n} times in this run)")
     if unknown:
         os.makedirs(os.path.join(ROOT, "replays"), exist_ok=True)
         seen_sites = set()
